@@ -4,7 +4,7 @@ From ZT Require Import Base Layers LayersFacts Run RunFacts RunInv RunLedger Run
 
 Definition sp (su td : option (list hout)) : lspec := {| l_setup := su; l_teardown := td; l_tsetup := true; l_tteardown := true |}.
 Definition tst (l : nat) (body : po) (subs : list po) : test :=
-  {| t_layer := l; t_deco := false; t_xf := false; t_su := Pok; t_subs := subs; t_body := body; t_td := Pok; t_cl := [Perr] |}.
+  {| t_layer := l; t_deco := false; t_xf := false; t_su := Pok; t_subs := subs; t_body := body; t_td := Pok; t_cl := [Perr]; t_count := 1 |}.
 
 (* layers: 0 unit, 1 base, 2 derived from 1 (its tearDown is not implemented -> later layers are resumed in
    subprocesses), 3 derived from 1 and 2, 4 independent whose tearDown raises *)
